@@ -264,6 +264,10 @@ func init() {
 			"parser/rdparser.(*Parser).ParseUnbound": "same for #^",
 			"parser/rdparser.(*Parser).ParseFunRef":  "same for #'"}},
 	)
+	callerSpecs = append(callerSpecs,
+		callerSpec{rule: "CALLERS.getUnquoteType", target: "lisp.getUnquoteType", floor: 1, permitted: map[string]string{
+			"lisp.findAndUnquote": "the one walker that decides what in a quasiquote template is an unquote form"}},
+	)
 	for _, sp := range callerSpecs {
 		sp := sp
 		if sp.permitted == nil {
